@@ -34,6 +34,20 @@ check('C15', 'exploration',
       'deterministic simulation (seeded operation histories vs executable reference model, minimised replay); empty fault space',
       'DESIGN.md 5.7')
 
+check('C06', 'exploration',
+      'Seeded search over DOM edit histories (<=40 ops over a pool of <=24 nodes: elements, equal-content text '
+      'nodes, fragments, fragments in fragments, attribute-held fragments) against a list-of-lists model; after '
+      'every op parent links, owner documents, child order and every derived view the statement names are '
+      'compared. Sampling, not proof; the statement\'s "exhaustive to length 5" part is approximated by giving '
+      'lengths 1-5 half of the runs.',
+      'Trusted: the list model in sim/props/c06.py. Normal form: arguments are detached subtree roots or fresh '
+      'fragments (the statement\'s premise), never an ancestor of the target; spent fragments are not reused; '
+      'attribute fragments are installed as plasTeX.TeX does (fragment.parentNode = holder) and not edited '
+      'afterwards; fragments are transparent (a fragment child may name the fragment or the fragment\'s parent). '
+      'No fault/schedule dimension exists for this property: only the sequential core of the technique applies.',
+      'deterministic simulation (seeded operation histories vs executable reference model, minimised replay); empty fault space',
+      'DESIGN.md 5.6')
+
 NA = [
  ('C01', 'pure function of (text, catcode table): no schedule, clock, fault or history in the statement; would need a second lexer as oracle (differential testing, another family)'),
  ('C02', 'pure function of the macro program; oracle would be an independent TeX expander (differential testing)'),
